@@ -86,7 +86,9 @@ package base
 // ---- schema (C16) ------------------------------------------------------------------------------------------------------------
 // hasf(s, k): the schema has a field whose name has map key k (opaque; the definition "some fieldNames[i] equals the name"
 // is proved in CreateFieldLocator and not exported)
-//@ pure func hasf(s LogSchema, k int) bool
+// (a function of the schema's field-name list only: the OnLocated hook does not matter)
+//@ pure func hasfn(names []string, k int) bool
+//@ pure func hasf(s LogSchema, k int) bool := hasfn(s.fieldNames, k)
 //@ pure func hasname(s LogSchema, name string) bool := exists i int :: 0 <= i && i < len(s.fieldNames) && s.fieldNames[i] == name
 
 //@ func (s *LogSchema) CreateFieldLocator(name string) (LogFieldLocator, error)
